@@ -232,7 +232,8 @@ def infoFromRpc (pc : PCodec) (i : RSegInfo) : Except RErr Info :=
     | .ok sid => .ok (infoNew pc i.timestamp.toNat sid)
   else .error .timestamp
 
-/-- `SignedPathSegment::try_from_rpc` -/
+/-- `SignedPathSegment::try_from_rpc` (since fix c0ed6e0: `info.encoded = segment.segment_info`, the bytes
+as received – the entries are signed over them; before, the re-encoding built by `SegmentInfo::new` was kept) -/
 def segFromRpc (pc : PCodec) (r : RSegment) : Except RErr Segment :=
   match pc.decInfo r.segmentInfo with
   | none => .error .decodeInfo
@@ -240,14 +241,19 @@ def segFromRpc (pc : PCodec) (r : RSegment) : Except RErr Segment :=
     match infoFromRpc pc i with
     | .error e => .error e
     | .ok info =>
+      let info := { info with encoded := r.segmentInfo }
       match mapE (asEntryFromRpc pc) r.asEntries with
       | .error e => .error e
       | .ok es => .ok { info := info, entries := es }
 
-/-- `SignedPathSegment::into_rpc` -/
-def segToRpc (pc : PCodec) (s : Segment) : RSegment :=
-  { segmentInfo := pc.encInfo { timestamp := s.info.timestamp, segmentId := s.info.segmentId },
+/-- `SignedPathSegment::into_rpc` (since fix c0ed6e0: `segment_info: self.info.encoded`; before,
+`self.info.into_rpc().encode_to_vec()`) -/
+def segToRpc (_pc : PCodec) (s : Segment) : RSegment :=
+  { segmentInfo := s.info.encoded,
     asEntries := s.entries.map fun e => { signed := some e.signed } }
+
+/-- the segment as `validate_signature` sees it: the associated data starts with `info.encoded` -/
+def Segment.signedView (s : Segment) : Seg AsEntry := { info := s.info.encoded, entries := s.entries }
 
 def hopFieldToRpc (h : HopField) : RHopField :=
   { ingress := h.ingress, egress := h.egress, expTime := h.exp, mac := h.mac }
